@@ -399,7 +399,7 @@ def run(prop_id, tier, seed, replay=None):
         b = vlib.run_tlc("Masks", _cfg(os.path.join(wd, "Gen.cfg"), WideKinds=wide, Emit="TRUE", invs=("EmitCase",)),
                          wd, tag="roleB", timeout=3000)
         rep.add_tlc(b)
-        per = 40 if tier == "quick" else 600
+        per = 12 if tier == "quick" else 600
         s = vlib.run_tlc("Masks", _cfg(os.path.join(wd, "Rand.cfg"), Seed=seed % 60000, NChains=16, NPerChain=per,
                                        RandDepth=3 if tier == "quick" else 4, Emit="TRUE", spec="SpecRand",
                                        invs=("EmitCase",) + ROLE_A), wd, tag="rand", timeout=3000)
